@@ -198,6 +198,43 @@ pub fn damage_castling(m: &Model, shredder: bool) -> Option<Model> {
     None
 }
 
+/// Unsupported rights where everything but ONE circumstance is in order:
+/// "king-off-rank": an own rook stands at home on the named file, but the king is not on its back rank
+/// (in particular: on the opponent's back rank); "rook-not-home": the king is at home and an own rook
+/// stands on the named file, but not on the back-rank square.
+pub fn damage_castling_specific(m: &Model, shredder: bool, which: &str) -> Option<Model> {
+    for c in 0..2u8 {
+        let Some(k) = m.king_sq(c) else { continue };
+        let back = if c == WHITE { 0 } else { 7 };
+        for w in 0..2usize {
+            if m.rights[c as usize][w].is_some() {
+                continue;
+            }
+            for f in 0..8u8 {
+                let right_wing = if w == 0 { (f as i8) > file_of(k) } else { (f as i8) < file_of(k) };
+                if !right_wing || (!shredder && f != (if w == 0 { 7 } else { 0 })) {
+                    continue;
+                }
+                let home = m.sq[mk(f as i8, back).unwrap() as usize] == Some((ROOK, c));
+                let on_file_elsewhere = (0..8i8).any(|r| r != back && m.sq[mk(f as i8, r).unwrap() as usize] == Some((ROOK, c)));
+                let fits = match which {
+                    "king-off-rank" => home && rank_of(k) != back,
+                    _ => !home && on_file_elsewhere && rank_of(k) == back,
+                };
+                if !fits {
+                    continue;
+                }
+                let mut d = m.clone();
+                d.rights[c as usize][w] = Some(f);
+                if all_in(&d.defects(), Aspect::Castling) {
+                    return Some(d);
+                }
+            }
+        }
+    }
+    None
+}
+
 /// A right naming a file of the side's back rank on which an *enemy* rook stands (correct wing).
 pub fn damage_castling_enemy_rook(m: &Model, shredder: bool) -> Option<Model> {
     for c in 0..2u8 {
@@ -498,6 +535,14 @@ pub fn text_cases(m: &Model, shredder: bool) -> Vec<Option<TextCase>> {
     push("W.castling-reversed", Some(with(2, &f[2].chars().rev().collect::<String>())), Expect::Total);
     // operators added later are appended here so that earlier operator indices stay stable
     push("K.right-on-enemy-rook", damage_castling_enemy_rook(m, shredder).map(|d| d.to_fen(shredder)), v("InvalidCastlingRights"));
+    push("K.right-king-off-back-rank-rook-at-home", damage_castling_specific(m, shredder, "king-off-rank").map(|d| d.to_fen(shredder)), v("InvalidCastlingRights"));
+    push("K.right-rook-on-file-not-home", damage_castling_specific(m, shredder, "rook-not-home").map(|d| d.to_fen(shredder)), v("InvalidCastlingRights"));
+    // U+212A KELVIN SIGN lower-cases to ASCII 'k': a Unicode-aware case fold would read it as a king
+    push("P.kelvin-sign-for-king", if f[0].contains('K') { Some(with(0, &f[0].replacen('K', "\u{212A}", 1))) } else { None }, v("InvalidBoard"));
+    push("K.kelvin-sign", if f[2].contains('K') { Some(with(2, &f[2].replacen('K', "\u{212A}", 1))) } else { Some(with(2, "\u{212A}")) }, v("InvalidCastlingRights"));
+    // a rank whose digits add up to 8 + 256 (wraps to 8 in an 8-bit counter) and one that overflows it
+    push("P.rank-264-files", Some(with(0, &format!("{}{}", "8".repeat(32), f[0]))), v("InvalidBoard"));
+    push("P.rank-digit-run-300", Some(with(0, &format!("{}{}", "9".repeat(34), f[0]))), v("InvalidBoard"));
     // truncation at every byte offset (the canonical record is ASCII)
     for cut in 0..rec.len() {
         cases.push(Some(TextCase { name: "W.truncate-at-byte", text: rec[..cut].to_string(), expect: Expect::Total, plain_entry_only: false }));
@@ -620,6 +665,8 @@ pub fn builder_cases(m: &Model) -> Vec<Option<BuilderCase>> {
         cases.push(it.next().map(|d| BuilderCase { name: "B.right-wrong-side-own-rook-2", state: BState::of(&d), expect: Some("InvalidCastlingRights") }));
     }
     cases.push(damage_castling_enemy_rook(m, true).map(|d| BuilderCase { name: "B.right-on-enemy-rook", state: BState::of(&d), expect: Some("InvalidCastlingRights") }));
+    cases.push(damage_castling_specific(m, true, "king-off-rank").map(|d| BuilderCase { name: "B.right-king-off-back-rank-rook-at-home", state: BState::of(&d), expect: Some("InvalidCastlingRights") }));
+    cases.push(damage_castling_specific(m, true, "rook-not-home").map(|d| BuilderCase { name: "B.right-rook-on-file-not-home", state: BState::of(&d), expect: Some("InvalidCastlingRights") }));
     // EP aspect
     {
         let eprank: u8 = if m.stm == WHITE { 5 } else { 2 };
